@@ -58,9 +58,35 @@ def _op_coq_call(op):
     return "CStop" if op[0] == "stop" else f"(CRestart {cf.q(op[1])})"
 
 
+# ------------------------------------------------------------------------------------------------
+# second tie (DESIGN 2.6): Timer.stop / Timer.restart translated from the tree under test on every run
+# (vlib/translate.py, fail closed) into coq/Gen/Extracted_timer.v; bridged to do_stop / do_restart of
+# Elem/Timer.v by coq/Elem/TimerBridge.v; obligations in Props/C19_Bridge.v.
+
+TIMER_STATE = [("start_time", "Q"), ("timeout", "Q"), ("expire_time", "Q"), ("stopped", "bool")]
+TIMER_CONS = [("FxInterrupt", ""),             # self.proc.interrupt("restart timer")
+              ("FxNewProc", "")]               # self.proc = self.env.process(self.run(self.env))
+TIMER_READS = [("self.env.now", "now", "Q"),
+               ("timeout", "tau", "Q"),                                            # the argument of restart()
+               ("self.env.active_process is self.proc", "own_callback", "bool", "volatile"),
+               ("self.proc.is_alive", "proc_alive", "bool", "volatile")]
+TIMER_FX = [('self.proc.interrupt("restart timer")', "FxInterrupt", []),
+            ("self.proc = self.env.process(self.run(self.env))", "FxNewProc", [])]
+
+
+def extracted_timer(repo):
+    import os
+    from vlib import translate as tr
+    path = os.path.join(repo, "onl", "utils", "timer.py")
+    specs = [tr.FnSpec(path, "Timer", "stop", "gen_Timer_stop", reads=TIMER_READS, effects=TIMER_FX),
+             tr.FnSpec(path, "Timer", "restart", "gen_Timer_restart", reads=TIMER_READS, effects=TIMER_FX)]
+    return tr.gen_module("onl/utils/timer.py: Timer.stop, Timer.restart", "timer_st", "t_", TIMER_STATE, "timer_fx",
+                         TIMER_CONS, specs)
+
+
 class C19(Prop):
     id = "C19"
-    props_file = "Props/C19.v"
+    props_file = ["Props/C19.v", "Props/C19_Bridge.v"]
     coq_imports = ["From ONL Require Import Base.Cmp Elem.Timer."]
     n_quick = 600
     n_thorough = 12000
@@ -83,6 +109,9 @@ class C19(Prop):
         "the real kernel only produces admissible executions of Timer.run is checked per run, not proved",
         "the callback is a scripted function that returns normally; it is identified with the list of calls it makes on its own timer",
         "float rounding is outside the theorems: all instants and timeouts are dyadic, every float the Timer computes is exact",
+        "vlib/translate.py (Python ast, fail closed; observation/effect tables above the plugin class in props/c19.py) regenerates "
+        "coq/Gen/Extracted_timer.v from Timer.stop / Timer.restart of the tree under test before every build; the C19_gen_* theorems "
+        "(Props/C19_Bridge.v) bridge them to do_stop / do_restart of the hand-written model",
     ]
     assumptions = [
         "timeouts given to Timer() and restart() are positive (the constructor enforces it; restart(tau<=0) never fires and is outside C19)",
@@ -92,6 +121,13 @@ class C19(Prop):
         "after stop() a restart() does not un-stop the timer ('after stop() it never fires again' is read as final)",
     ]
     partial = []
+
+    # ---- second tie: regenerate the translated bodies before the Coq build (fail closed) -----------
+    def pre_build(self):
+        import os
+        from vlib import framework as fw
+        from vlib import translate as tr
+        tr.write_if_changed(os.path.join(fw.COQ, "Gen", "Extracted_timer.v"), extracted_timer(fw.REPO))
 
     # ---- generation -----------------------------------------------------------------------------
     def gen_case(self, rng, tier):
